@@ -199,6 +199,20 @@ func checkImportAliases(c *Ctx, r *Report) {
 		if cl, ok := n.(*ast.CallExpr); ok && calleeOfCall(info, cl) == "fmt.Sprintf" && len(cl.Args) == 3 {
 			lits[litString(cl.Args[0])] = cl
 		}
+		// the same with the prefix factored out: Sprintf("%s%d%s", prefix, serial, name) in a new
+		// function whose call sites pass the prefix as a literal
+		if cl, ok := n.(*ast.CallExpr); ok && calleeOfCall(info, cl) == "fmt.Sprintf" && len(cl.Args) == 4 && litString(cl.Args[0]) == "%s%d%s" {
+			if id, isId := ast.Unparen(cl.Args[1]).(*ast.Ident); isId {
+				if _, exprs, bound := w.argsBoundTo(info.ObjectOf(id)); bound {
+					for _, e := range exprs {
+						if p := litString(e); p != "" {
+							// same operand positions as the three-argument form
+							lits[p+"%d%s"] = &ast.CallExpr{Fun: cl.Fun, Lparen: cl.Lparen, Args: []ast.Expr{cl.Args[0], cl.Args[2], cl.Args[3]}, Rparen: cl.Rparen}
+						}
+					}
+				}
+			}
+		}
 		return true
 	})
 	var sites []string
